@@ -141,9 +141,18 @@ def run(ctx):
                   "oracle: independent reference parser of the documented grammar (acceptance, operands in order, exact values at 8 assignments)"]
     ss = strings(ctx, ctx.n(5000, 80000))
     model = model_parse(ss) if ctx.driver_ok else [None] * len(ss)
+    from mathy_core.parser import ExpressionParser
+    shared = ExpressionParser()
     for s, m in zip(ss, model):
         res.evaluations += 1
         py = impl_parse(s)
+        # the same text on a long-lived parser, twice: must read the text the same way every time
+        for _ in range(2):
+            again = impl_parse(s, shared)
+            if not same_outcome(again, py):
+                res.failures.append(dict(**{"class": "reading-depends-on-history"}, input=dict(text=s),
+                                         detail=f"a used parser returns {again[0]} {P.sx_text(again[1]) if again[0] == 'OK' else again[1]}, a fresh one {py[0]} {P.sx_text(py[1]) if py[0] == 'OK' else py[1]}"))
+                break
         if m is not None and not same_outcome(py, m):
             res.disagreements.append(dict(suite="parse", input=dict(text=s), impl=(py[0], P.sx_text(py[1]) if py[0] == "OK" else py[1]),
                                           model=(m[0], P.sx_text(m[1]) if m[0] == "OK" else m[1])))
